@@ -111,7 +111,9 @@ def gen(rng: random.Random, *, cdda_ok: bool = True, pairs: bool = True) -> dict
         tracks.append({"num": i + 1, "mode": "AUDIO", "title": None if rng.random() < 0.15 else t, "indices": [[1, mm, ss, ff]]})
         sector += rng.randint(1, 3)
     return {"fmt": "cdda", "model": {"bin_name": "d.bin", "bin_key": "c%d" % rng.getrandbits(24), "bin_len": sector * C.SECTOR + rng.choice([0, 3, 500]),
-                                     "tracks": tracks}, "block": 4096}
+                                     "tracks": tracks}, "block": 4096,
+            # a library user may look at the freshly opened image (children / get_info) before asking for an export
+            "touch_first": rng.random() < 0.35}
 
 
 def sample_refs(sc: dict) -> List[SampleRef]:
@@ -190,6 +192,11 @@ def execute(sc: dict, tag: str = "nm") -> Observation:
         if image is None:
             er = tool.ExportResult(exc=r0.exc, exc_msg=r0.exc_msg, exc_tb=r0.exc_tb)
         else:
+            if sc.get("touch_first") and fmt == "cdda":
+                try:
+                    image.get_info().to_string()
+                except Exception:      # noqa: BLE001 - looking must not matter; whatever it does, the export below is judged
+                    pass
             er = tool.run_export(image, sb)
             # anything written into the sandbox but outside dest (a '..' escape that stayed inside the sandbox)
             er.stray = sb.stray_files()
